@@ -3,8 +3,9 @@ import RTV.Props.C03Extract
 # C03 extraction front end — plain integers and plain decimals, by kernel evaluation on bounded instances
 
 The regexes responsible for these two shapes (NumbersWithPlaceHolder, DoubleDecimalPointRegex) differ per culture in
-their sign prefix and look-aheads, so the universal theorems of `RTV.Props.C03Extract` (which go through the shared
-`_generate_format_regex` definitions) do not cover them.  Here the MODEL extractor — the regenerated regexes, all of them,
+their sign prefix and look-aheads; `RTV.Props.C03ExtractPlain` proves the universal statement for the cultures whose
+regex has the common form (not en-us, not it-it plain integers, not de-de / nl-nl decimals).  Here, for ALL sixteen
+configurations, the MODEL extractor — the regenerated regexes, all of them,
 with negative terms and ambiguity filters — is evaluated by the kernel on every configuration x sign x boundary
 lengths, standing alone and inside the carrier `a … b`.  The matcher only looks at the CLASS of a character, so one
 digit stands for all.  What an induction would add (and `rep_det_cons` + `chain_digits` provide the step for): the
